@@ -37,19 +37,31 @@ RUNIFS = [None, None, None, [True], [False], [None], [True, False], [False, True
 
 
 def run_real(case):
+  if case.get('abort') is not None:
+    # an invocation cut short by an operator abort is not diagnosed (judged by the C04 driver on the 'diag' program)
+    from harness.props import c04
+    return c04.run_real(case['abort'])
   out = ec.run_test_case(case)
   return {'tokens': ec.core_tokens(out['tokens']), 'ret': out['ret'], 'crashes': out['crashes']}
 
 
 def encode(case, obs):
+  if case.get('abort') is not None:
+    from harness.props import c04
+    return c04.encode(case['abort'], obs)
   return 'C05 %s # %s' % (ec.clean(ec.enc_test(case)), ' '.join(obs['tokens']))
 
 
 def classify(case, obs):
+  if case.get('abort') is not None:
+    return 'abort-during-a-diagnosed-phase'
   return case.get('pos', 'random')
 
 
 def nontrivial_key(case, obs):
+  if case.get('abort') is not None:
+    from harness.props import c04
+    return c04.nontrivial_key(case['abort'], obs)
   if any(t.startswith('eb') for t in obs['tokens']):
     return ec.clean(ec.enc_test(case))
   return None
@@ -91,6 +103,10 @@ POSITIONS = ['first', 'after_fail', 'subtest', 'failed_subtest', 'teardown', 'so
 
 def gen_cases(rng, tier):
   cases = []
+  from harness.props import c04
+  n = c04._length('diag', 'thread')
+  for k in range(0, n + 3, 4 if tier == 'quick' else 1):
+    cases.append({'abort': {'prog': 'diag', 'ks': [k], 'mode': 'thread'}, 'pos': 'abort'})
   # single invocation table: every (raw, meas, diag) kind, in every position, default options + stop_on_measurement_fail
   kinds = [{'raw': r, 'meas': m, 'diags': d} for r in RAWS for m in MEAS for d in DIAGS]
   for i, inv in enumerate(kinds):
@@ -145,6 +161,8 @@ def gen_cases(rng, tier):
 
 
 def shrink(case):
+  if case.get('abort') is not None:
+    return
   def phases(nodes, path=()):
     for i, n in enumerate(nodes):
       if n['t'] == 'P':
